@@ -213,6 +213,11 @@ func (w *World) applyImpl(lf *ledgerFns, s ledgerState, op string, newTag int) (
 	if e != nil {
 		return s, opResult{}, e.Error()
 	}
+	// object identity: callers mutate ledger items in place, so an item object
+	// must never be held by both overlays
+	if a := m.sharedObject(); a != "" {
+		return ns, opResult{err: true, tag: -77}, "ALIAS:" + a
+	}
 	var out opResult
 	switch op {
 	case "F.Set", "M.Set":
@@ -291,6 +296,10 @@ func l1(w *World, r *Report) {
 			nt := maxTag(n.p.i, n.p.r) + 1
 			ni, ires, und := w.applyImpl(lf, n.p.i, op, nt)
 			trace := append(append([]string(nil), n.trace...), op)
+			if strings.HasPrefix(und, "ALIAS:") {
+				r.Violate("L-1", "overlay-object-sharing", fmt.Sprintf("after %v the consensus overlay and the mempool overlay hold the SAME item object (%s): controllers mutate items in place, so a CheckTx would change what block execution commits (and vice versa)", trace, strings.TrimPrefix(und, "ALIAS:")), map[string]interface{}{"trace": trace}, fnSite(w, lf.fn[op]))
+				return
+			}
 			if und != "" {
 				r.Undecided("L-1", "exploration", fmt.Sprintf("the ledger code left the abstract domain after %v: %s", trace, und), fnSite(w, lf.fn[op]))
 				return
